@@ -49,7 +49,7 @@ class MatrixProduct:
 
         mp.qn = []
         for i in range(nsites+1):
-            subqn = npload[f"subqn_{i}"].astype(int).tolist()
+            subqn = npload[f"subqn_{i}"].astype(int)
             mp.qn.append(subqn)
 
         mp.qnidx = int(npload["qnidx"])
